@@ -6,9 +6,11 @@
 //     circle and radial SymmetricTridiagonalSolver, and the CSR rows of the innermost circle's matrix in storage order,
 //   - for the take strategy: `temp` after applyAscOrthoCircleSection(i) for every circle and applyAscOrthoRadialSection(j) for
 //     every radial line, evaluated on the INPUT iterate (no solve in between),
+//   - for the give strategy with one thread: the statements of smoothingSequential replayed one by one on a second object: the iterate
+//     at the start of each phase (gx), the value of temp every line solve is given (gt), and whether the replay reproduces smoothing() (gseq),
 //   - the iterate after one smoothing() sweep.
-// gmgdriver smcode compares all of it with GMGModel/SmootherCode.lean (exact rationals with the magnitude allowance; the
-// tridiagonal lines additionally in IEEE double, bit for bit).
+// gmgdriver smcode compares all of it with GMGModel/SmootherCode.lean and (strategy give) GMGModel/SmootherGiveCode.lean (exact
+// rationals with the magnitude allowance; the tridiagonal lines additionally in IEEE double, bit for bit).
 // The members are private: access specifiers are switched off for this translation unit only.
 #include <algorithm>
 #include <array>
@@ -109,13 +111,41 @@ static int mode_smooth(int cases, int max_nr, int max_nt)
         for (int strat = 0; strat < 2; strat++)
             for (int threads : {1, 4}) {
                 Vector<double> xv = from_rowmajor(g, x), fv = from_rowmajor(g, f), tmp(N);
-                std::string cm, rm, inner, tc = "-", tr = "-";
+                std::string cm, rm, inner, tc = "-", tr = "-", gx = "-", gt = "-", gseq = "-";
                 omp_set_num_threads(threads);
                 if (strat == 0) {
                     SmootherGive sm(g, L.levelCache(), *p.geo, *p.coef, p.dirbc, threads);
                     matrices(sm, g, cm, rm, inner);
                     for (int i = 0; i < N; i++) tmp[i] = rng.uniform(-1e3, 1e3);
                     sm.smoothing(xv, fv, tmp);
+                    if (threads == 1) {
+                        // the statements of SmootherGive::smoothingSequential, one by one, on a second object (the first solve of a
+                        // line factorises its matrix in place): the iterate at the start of each of the four phases (gx) and, for every
+                        // node, the value of temp its line solve is given (gt); gseq = the replay ends in the same bits as smoothing()
+                        SmootherGive s2(g, L.levelCache(), *p.geo, *p.coef, p.dirbc, threads);
+                        Vector<double> x2 = from_rowmajor(g, x), t2(N), pres(N);
+                        for (int i = 0; i < N; i++) { t2[i] = 777.0; pres[i] = -777.0; }
+                        Vector<double> cs1(g.ntheta()), cs2(g.ntheta()), rs(g.lengthSmootherRadial());
+                        auto snapC = [&](int i_r) { for (int j = 0; j < g.ntheta(); j++) pres[g.index(i_r, j)] = t2[g.index(i_r, j)]; };
+                        auto snapR = [&](int i_t) { for (int i = nc; i < g.nr(); i++) pres[g.index(i, i_t)] = t2[g.index(i, i_t)]; };
+                        t2 = fv;
+                        gx = hexvec(to_rowmajor(g, x2));
+                        for (int i_r = 0; i_r < nc + 1; i_r++) s2.applyAscOrthoCircleSection(i_r, SmootherColor::Black, x2, fv, t2);
+                        for (int i_r = (nc % 2 == 0) ? 1 : 0; i_r < nc; i_r += 2) { snapC(i_r); s2.solveCircleSection(i_r, x2, t2, cs1, cs2); }
+                        gx += ";" + hexvec(to_rowmajor(g, x2));
+                        for (int i_r = 0; i_r < nc; i_r++) s2.applyAscOrthoCircleSection(i_r, SmootherColor::White, x2, fv, t2);
+                        for (int i_r = (nc % 2 == 0) ? 0 : 1; i_r < nc; i_r += 2) { snapC(i_r); s2.solveCircleSection(i_r, x2, t2, cs1, cs2); }
+                        gx += ";" + hexvec(to_rowmajor(g, x2));
+                        for (int i_t = 0; i_t < g.ntheta(); i_t++) s2.applyAscOrthoRadialSection(i_t, SmootherColor::Black, x2, fv, t2);
+                        for (int i_t = 0; i_t < g.ntheta(); i_t += 2) { snapR(i_t); s2.solveRadialSection(i_t, x2, t2, rs); }
+                        gx += ";" + hexvec(to_rowmajor(g, x2));
+                        for (int i_t = 0; i_t < g.ntheta(); i_t++) s2.applyAscOrthoRadialSection(i_t, SmootherColor::White, x2, fv, t2);
+                        for (int i_t = 1; i_t < g.ntheta(); i_t += 2) { snapR(i_t); s2.solveRadialSection(i_t, x2, t2, rs); }
+                        gt = hexvec(to_rowmajor(g, pres));
+                        bool same = true;
+                        for (int i = 0; i < N; i++) { uint64_t a, b; double da = x2[i], db = xv[i]; memcpy(&a, &da, 8); memcpy(&b, &db, 8); if (a != b) same = false; }
+                        gseq = same ? "1" : "0";
+                    }
                 }
                 else {
                     SmootherTake sm(g, L.levelCache(), *p.geo, *p.coef, p.dirbc, threads);
@@ -129,8 +159,8 @@ static int mode_smooth(int cases, int max_nr, int max_nt)
                     for (int i = 0; i < N; i++) tmp[i] = rng.uniform(-1e3, 1e3);
                     sm.smoothing(xv, fv, tmp);
                 }
-                printf("SC strat=%s threads=%d x=%s f=%s cm=%s rm=%s inner=%s temp=%s out=%s\n", strat == 0 ? "give" : "take", threads, hexvec(x).c_str(), hexvec(f).c_str(),
-                       cm.c_str(), rm.c_str(), inner.empty() ? "-" : inner.c_str(), tc.c_str(), hexvec(to_rowmajor(g, xv)).c_str());
+                printf("SC strat=%s threads=%d x=%s f=%s cm=%s rm=%s inner=%s temp=%s gx=%s gt=%s gseq=%s out=%s\n", strat == 0 ? "give" : "take", threads, hexvec(x).c_str(), hexvec(f).c_str(),
+                       cm.c_str(), rm.c_str(), inner.empty() ? "-" : inner.c_str(), tc.c_str(), gx.c_str(), gt.c_str(), gseq.c_str(), hexvec(to_rowmajor(g, xv)).c_str());
             }
     }
     printf("end\n");
